@@ -269,6 +269,8 @@ func (m *vc16m) step() {
 		}
 		if m.h[want].root {
 			vf.Assert(!e.Ok(), m.lab("pop-on-empty-list-returned-ok"))
+			// documented: a detached non-nil element
+			vf.Assert(e != nil && !e.In(m.lists[li]), m.lab("pop-on-empty-list-returned-an-attached-element"))
 			if m.find(e) < 0 {
 				m.addHandle(e, -1, false, vc16v{}, false)
 			}
